@@ -286,10 +286,18 @@ func c02a(c *Ctx, r *Report) {
 						}
 					}
 				}
+				resolved := false
+				for _, e := range p.Effects {
+					if e.Kind == "call" && strings.HasSuffix(e.Term.Name, "CheckAndResolveConflict") {
+						resolved = true
+					}
+				}
 				switch p.Kind {
 				case "fall", "continue":
 					if appends != 1 {
 						why = fmt.Sprintf("a state's iteration can end without appending exactly one row (path [%s])", p.CondString())
+					} else if !resolved {
+						why = fmt.Sprintf("a row is appended on a path that never asks CheckAndResolveConflict for the state's actions (path [%s]): transitions of that state can be left out of the table", p.CondString())
 					}
 				case "return":
 					if len(p.Vals) != 2 || p.Vals[1].String() == "nil" {
@@ -370,7 +378,8 @@ func c02a(c *Ctx, r *Report) {
 			if !isR {
 				return true
 			}
-			if call, isC := rs.X.(*ast.CallExpr); !isC || callee(ginfo, call) == nil || callee(ginfo, call).Name() != "fetchReduceTransistor" {
+			// the ranged sequence is fetchReduceTransistor() — called in place or held in a local with a single definition
+			if call, isC := newCoverFn(g).resolve(rs.X).(*ast.CallExpr); !isC || callee(ginfo, call) == nil || callee(ginfo, call).Name() != "fetchReduceTransistor" {
 				return true
 			}
 			pe := newPathEnum(ginfo)
